@@ -864,6 +864,131 @@ theorem status_preserved (b : Block) (st : Nat) (fs : List Field) (hp : parseH2R
     simp only [Bool.false_eq_true, if_false, List.map_cons, h1, h2, List.filter_cons, h3, Bool.not_false, if_true,
       List.head?_cons]
 
+/-! ### responses towards an HTTP/1 client: the response-stream side of the reference reader -/
+
+private theorem valid_values_resp (b : Block) (hv : h2ValidResp b = true) :
+    ∀ f ∈ b, ∀ c ∈ f.2, c ≠ 0 ∧ c ≠ 10 ∧ c ≠ 13 := by
+  intro f hf c hc
+  simp only [h2ValidResp, Bool.and_eq_true] at hv
+  have h1 := (List.all_eq_true.mp hv.1.1) f hf
+  simp only [fieldOk, Bool.and_eq_true, h2ValueOk] at h1
+  have := (List.all_eq_true.mp h1.1.1.1.2.1.1) c hc
+  simp at this
+  exact ⟨this.1.1, this.1.2, this.2⟩
+
+private theorem validateHeaders_parts (fs : List Field) (isReq noTe : Bool)
+    (hh : validateHeaders fs false isReq noTe = true) :
+    (∀ f ∈ fs, isToken f.1 = true) ∧ fs.filter (nameIs sTE) = []
+      ∧ (fs.filter (nameIs sCL) = [] ∨ ∃ g, fs.filter (nameIs sCL) = [g] ∧ clStrict g.2 = true) := by
+  simp only [validateHeaders, Bool.and_eq_true] at hh
+  obtain ⟨hall, hfr⟩ := hh
+  have hte : fs.filter (nameIs sTE) = [] := by
+    cases hte : fs.filter (nameIs sTE) with
+    | nil => rfl
+    | cons t ts =>
+      exfalso
+      simp only [hte, List.map_cons] at hfr
+      cases ts <;> simp at hfr
+  refine ⟨?_, hte, ?_⟩
+  · intro f hf
+    have := (List.all_eq_true.mp hall) f hf
+    simp only [Bool.and_eq_true] at this
+    exact this.1
+  · simp only [hte, List.map_nil] at hfr
+    cases hcl : fs.filter (nameIs sCL) with
+    | nil => left; rfl
+    | cons g gs =>
+      right
+      cases gs with
+      | nil => exact ⟨g, rfl, by simpa [hcl] using hfr⟩
+      | cons g2 gs2 => simp [hcl] at hfr
+
+/-- hyper-h2's content-length law for a buffered response body -/
+def RespClLaw (fs : List Field) (body : Bytes) : Prop :=
+  ∀ g, fs.filter (nameIs sCL) = [g] → Ref.parseDec g.2 = some body.length
+
+/-- mitmproxy closes the client connection after a response whose end only the close can mark
+    (`expected_http_body_size == -1`: a body is allowed and no content-length is given) -/
+def closeAfter (method : Bytes) (st : Nat) (fs : List Field) : Bool := !bodiless method st && !hasName sCL fs
+
+/-- A final response received over HTTP/2 that hyper-h2's validator, `parse_h2_response_headers` and
+    `validate_headers` accept, with a buffered body obeying the content-length law, is written to an HTTP/1 client as
+    bytes that the response-stream reference reader — told whether mitmproxy closes the connection afterwards — reads as
+    EXACTLY ONE response with the same status, fields and body (no body for HEAD/204/304): framed by Content-Length, by
+    the close of the connection, or not at all, never ambiguously. -/
+theorem h2_to_h1_response_single_message (method : Bytes) (b : Block) (body : Bytes) (st : Nat) (fs : List Field)
+    (hv : h2ValidResp b = true) (hp : parseH2Response b = some (st, fs))
+    (hval : validateHeaders fs false false (decide (100 ≤ st ∧ st ≤ 199) || st = 204) = true)
+    (hfinal : 200 ≤ st) (hconn : (asciiUpper method == sConnect) = false) (hcl : RespClLaw fs body) :
+    h2RespToH1 method b body
+      = some (assembleResponseHead sHttp11 st (reason st) fs ++ (if bodiless method st then [] else body)) ∧
+    Ref.parseResp (closeAfter method st fs) [method]
+        (assembleResponseHead sHttp11 st (reason st) fs ++ (if bodiless method st then [] else body))
+      = some [⟨sHttp11, st, joinWith [32] (splitOn 32 (reason st)), fs.map readBack,
+               if bodiless method st then [] else body⟩] := by
+  refine ⟨by unfold h2RespToH1; rw [hp]; simp only []; rw [if_pos hval], ?_⟩
+  obtain ⟨ps, a, b', c, hs, hl, hcond, hst⟩ := parseH2Response_some b st fs hp
+  have sp := status_preserved b st fs hp
+  have vv := valid_values_resp b hv
+  have vp := validateHeaders_parts fs false _ hval
+  have hmem := (splitPseudo_mem b [] ps fs hs).2
+  have hclean : ∀ f ∈ fs, fieldClean f := fun f hf => ⟨vp.1 f hf, vv f (hmem f hf)⟩
+  -- the status line
+  let line := sHttp11 ++ [32] ++ natDec st ++ [32] ++ reason st
+  have hdig : ∀ q ∈ natDec st, isDigit q = true :=
+    fun q hq => ((natDigits_foldl (st + 1) st (by omega)).2.2 q hq).1
+  have hline : clean line := by
+    have h32 : clean ([32] : Bytes) := by intro q hq; simp at hq; subst hq; decide
+    have hv11 : clean sHttp11 := by intro q hq; revert q; decide
+    have hnd : clean (natDec st) := by
+      intro q hq
+      have := hdig q hq
+      constructor <;> (intro e; subst e; revert this; decide)
+    exact clean_append (clean_append (clean_append (clean_append hv11 h32) hnd) h32) (reason_clean st)
+  have hlne : line ≠ [] := by simp [line, sHttp11]
+  have hbytes : assembleResponseHead sHttp11 st (reason st) fs ++ (if bodiless method st then [] else body)
+      = line ++ crlf ++ fieldLines fs ++ crlf ++ (if bodiless method st then [] else body) := by
+    simp [assembleResponseHead, line, List.append_assoc]
+  have hte : ((fs.map readBack).filter (nameIs sTE)) = [] := by rw [filter_readBack, vp.2.1]; rfl
+  have hclf : ((fs.map readBack).filter (nameIs sCL)) = (fs.filter (nameIs sCL)).map readBack := filter_readBack _ _
+  have hst2 : ¬(100 ≤ st ∧ st ≤ 199) := by omega
+  -- what the reference reader takes as the framing
+  have key : ∃ fr, Ref.framingResp sHttp11 st method (fs.map readBack) = some fr ∧
+      ((fr = .none ∧ (if bodiless method st then [] else body) = []) ∨
+       fr = .cl (if bodiless method st then [] else body).length ∨
+       (fr = .eof ∧ closeAfter method st fs = true)) := by
+    have hbl : bodilessR st method = bodiless method st := by
+      have h1 : (decide (100 ≤ st) && decide (st ≤ 199)) = false := by simp; omega
+      simp [bodilessR, bodiless, h1, hconn]
+    rcases vp.2.2 with hnone | ⟨g, hg, hstrict⟩
+    · have hf := framingResp_nocl st method (fs.map readBack) hte (by rw [hclf, hnone]; rfl)
+      rw [hbl] at hf
+      by_cases hB : bodiless method st = true
+      · exact ⟨.none, by rw [hf]; simp [hB], Or.inl ⟨rfl, by simp [hB]⟩⟩
+      · have hBf : bodiless method st = false := by simpa using hB
+        refine ⟨.eof, by rw [hf]; simp [hBf], Or.inr (Or.inr ⟨rfl, ?_⟩)⟩
+        have : hasName sCL fs = false := by rw [hasName_iff, hnone]; rfl
+        simp [closeAfter, hBf, this]
+    · have hdg : ∀ q ∈ g.2, isDigit q = true := clStrict_digits g.2 hstrict
+      have hf := framingResp_cl st method (fs.map readBack) g.2 body.length hte
+        (by rw [hclf, hg]; simp [readBack, (digits_item _ hdg).2]) hdg (hcl g hg)
+      rw [hbl] at hf
+      by_cases hB : bodiless method st = true
+      · exact ⟨.none, by rw [hf]; simp [hB], Or.inl ⟨rfl, by simp [hB]⟩⟩
+      · have hBf : bodiless method st = false := by simpa using hB
+        exact ⟨.cl body.length, by rw [hf]; simp [hBf], Or.inr (Or.inl (by simp [hBf]))⟩
+  obtain ⟨fr, hfr, hb⟩ := key
+  rw [hbytes]
+  exact ref_parse_resp_assembled line st _ method fs _ fr _ hline hlne sp.2.1 hfinal hconn hclean hfr hb
+
+/-- e.g. a 200 without content-length is delimited by the close; a 204 carries no body whatever the server sent -/
+example : (h2RespToH1 [71, 69, 84] [(pStatus, [50, 48, 48]), ([120], [49])] [97, 98]).map (Ref.parseResp true [[71, 69, 84]]) =
+    some (some [⟨sHttp11, 200, [79, 75], [([120], [49])], [97, 98]⟩]) := by decide
+example : (h2RespToH1 [71, 69, 84] [(pStatus, [50, 48, 48]), ([120], [49])] [97, 98]).map (Ref.parseResp false [[71, 69, 84]]) =
+    some none := by decide
+example : (h2RespToH1 [71, 69, 84] [(pStatus, [50, 48, 52])] [97, 98]).map (Ref.parseResp false [[71, 69, 84]]) =
+    some (some [⟨sHttp11, 204, [78, 111, 32, 67, 111, 110, 116, 101, 110, 116], [], []⟩]) := by decide
+
 /-! ### the hypotheses are satisfiable and the model rejects what it must -/
 
 def exBlock : Block :=
